@@ -7,12 +7,20 @@ import PyrollModel.EvalDriver
     env k=<bits> k=<bits> ...          -> ok                       (resolved constructor arguments / roll members)
     contour <N>                        -> `z y z y ...` (bits)     the assembled contour polyline (N samples per arc)
     depth <z bits> ...                 -> bits ...                 translated `local_depth`
+    deptharg i|f <n | z bits> ...      -> `i:<n>` | `f:<bits>` ...  translated `local_depth` INCLUDING what the source does to its
+                                                                   argument: entries handed over as integers (`i`, decimal) or as
+                                                                   floats (`f`, bits); the answer says in which dtype numpy hands
+                                                                   each value back (`i:` truncated integer, `f:` float)
     surfx <N> set|default              -> bits ...                 translated `surface_x` grid; remembered as the grid abscissae
     xs <x bits> ...                    -> ok <n>                   sets the grid abscissae (an explicit `surface_x`, a used roll's grid)
     pts <z y z y ...>                  -> ok <n>                   sets the current polyline (the roll's contour points)
     grid                               -> ok <rows> <cols>         builds the translated `surface_y` grid (layout handed to interpn)
     gridat <i> <j>                     -> bits                     `surface_y[j][i]` (i-th abscissa, j-th contour vertex)
     interp <x bits> <z bits>           -> bits                     bilinear interpolation on the current grid
+    interparg i|f <x ...> / i|f <z ...> -> bits ... | bits ... | ...  translated `surface_interpolation(x, z)` in its array form,
+                                                                   INCLUDING what the source does to the positions: entries
+                                                                   handed over as integers (`i`, decimal) or floats (`f`, bits);
+                                                                   one `|`-separated row per z, one value per x
     interp1 <z bits> ...               -> bits ...                 linear interpolation on the current polyline
     spline <uw bits|_> <z y z y ...>   -> `rejected` | `<width> <usable> <depth> | z y z y ...`  (current polyline := result)
     splineown ndarray|other            -> `<a> <w>` (0/1)          a: the groove's vertex array is the caller's memory, w: the
@@ -28,6 +36,9 @@ open GrooveRep RollObject
 
 structure Cfg where
   useAbs : Bool
+  argOps : List ArgOp
+  interpXOps : List ArgOp
+  interpZOps : List ArgOp
   pieces : List Piece
   dflt : Expr
   segments : List Seg
@@ -75,6 +86,15 @@ def parseRollOp (t : String) : Option RollOp :=
   else if t.startsWith "call:" then some (.call (t.drop 5).toString)
   else none
 
+def showScalar : PyScalar Float → String
+  | .int n => "i:" ++ toString n
+  | .float x => "f:" ++ floatToBitsStr x
+
+def parseArg : List String → Option (PyArg Float)
+  | "i" :: ns => (ns.mapM String.toInt?).map .intArray
+  | "f" :: zs => (zs.mapM floatOfBitsStr).map .floatArray
+  | _ => none
+
 def showRollStep (r : RollObj × Option (Ver × Ver)) : String :=
   let fields := if r.1.store.isEmpty then "-" else ",".intercalate (r.1.store.map (·.1))
   match r.2 with
@@ -95,6 +115,14 @@ def handle (cfg : Cfg) (st : St) (line : String) : St × String :=
   | "depth" :: zs =>
     match zs.mapM floatOfBitsStr with
     | some zs => (st, showList (zs.map fun z => localDepth cfg.useAbs cfg.pieces cfg.dflt ρ z))
+    | none => (st, "bad-op")
+  | "deptharg" :: "i" :: ns =>
+    match ns.mapM String.toInt? with
+    | some ns => (st, " ".intercalate ((localDepthArg cfg.argOps cfg.pieces cfg.dflt ρ (.intArray ns)).map showScalar))
+    | none => (st, "bad-op")
+  | "deptharg" :: "f" :: zs =>
+    match zs.mapM floatOfBitsStr with
+    | some zs => (st, " ".intercalate ((localDepthArg cfg.argOps cfg.pieces cfg.dflt ρ (.floatArray zs)).map showScalar))
     | none => (st, "bad-op")
   | ["surfx", n, mode] =>
     match n.toNat? with
@@ -126,6 +154,11 @@ def handle (cfg : Cfg) (st : St) (line : String) : St × String :=
   | ["interp", x, z] =>
     match floatOfBitsStr x, floatOfBitsStr z with
     | some x, some z => (st, floatToBitsStr (bilinear st.xs (st.pts.map (·.1)) st.grid x z))
+    | _, _ => (st, "bad-op")
+  | "interparg" :: rest =>
+    match parseArg (rest.takeWhile (· ≠ "/")), parseArg ((rest.dropWhile (· ≠ "/")).drop 1) with
+    | some xq, some zq =>
+      (st, " | ".intercalate ((surfaceInterpArg cfg.interpXOps cfg.interpZOps st.xs (st.pts.map (·.1)) st.grid xq zq).map showList))
     | _, _ => (st, "bad-op")
   | "interp1" :: zs =>
     match zs.mapM floatOfBitsStr with
